@@ -5937,7 +5937,7 @@ class Lazy(Subconstruct):
             stream_seek(stream, fallback, 0, path)
             return obj
         len = self.subcon._actualsize(stream, context, path)
-        stream_seek(stream, len, 1, path)
+        stream_seek(stream, offset + len, 0, path)
         return execute
 
     def _build(self, obj, stream, context, path):
